@@ -23,6 +23,7 @@
 #include <cstddef>
 #include <limits>
 #include <type_traits>
+#include <cmath>
 #include <vector>
 
 #include "common_defs.hpp"
@@ -78,7 +79,15 @@ public:
     centroid(T value, W weight): mean_(value), weight_(weight) {}
     void add(const centroid& other) {
       weight_ += other.weight_;
-      mean_ += (other.mean_ - mean_) * other.weight_ / weight_;
+      const T delta = (other.mean_ - mean_) * other.weight_ / weight_;
+      if (std::isfinite(delta)) {
+        mean_ += delta;
+      } else {
+        // the difference or its product with the weight overflowed although the weighted mean itself is representable
+        // (values near the largest finite T): blend with the weight ratio instead
+        const T ratio = static_cast<T>(other.weight_) / static_cast<T>(weight_);
+        mean_ = mean_ * (1 - ratio) + other.mean_ * ratio;
+      }
     }
     T get_mean() const { return mean_; }
     W get_weight() const { return weight_; }
